@@ -265,13 +265,10 @@ class VOp:
                     pass    # documented alias case: no change
                 else:
                     new = copy.deepcopy(e) if e is not None else {'k': 'unk'}
-                    # whether the member object is replaced or overwritten in place is not specified: references to it and
-                    # below it are dropped by the driver
+                    # cif.h: the replaced value is cleaned and the new one copied ONTO it, "visible to code that holds a
+                    # reference to the value": a reference to the member stays attached, references below it die
                     m.invalidate_under(cur)
-                    for r in list(m.R):
-                        if m.R[r] is cur:
-                            del m.R[r]
-                    o['e'][a[1]] = new
+                    become(cur, new)
         elif n == 'getel':
             o = m.get(a[0])
             if o['k'] != 'list':
@@ -324,11 +321,9 @@ class VOp:
                     cur = o['i'][idx[0]][1]
                     o['i'][idx[0]][0] = a[1]          # most recently used spelling
                     if e is not cur:
+                        # replaced in place as well (cif.h, cif_value_set_item_by_key)
                         m.invalidate_under(cur)
-                        for r in list(m.R):
-                            if m.R[r] is cur:
-                                del m.R[r]
-                        o['i'][idx[0]][1] = copy.deepcopy(e) if e is not None else {'k': 'unk'}
+                        become(cur, copy.deepcopy(e) if e is not None else {'k': 'unk'})
                 else:
                     o['i'].append([a[1], copy.deepcopy(e) if e is not None else {'k': 'unk'}])
         elif n == 'getkey':
